@@ -235,10 +235,8 @@ impl Model for ClientConc {
             }
             CEv::ClientDrop(k) => {
                 let (a, b) = (w.reqs[k].rf.take(), w.reqs[k].ss.take());
-                guarded(&mut panics, "drop", move || {
-                    drop(a);
-                    drop(b);
-                });
+                safe_drop(&mut panics, "ResponseFuture", a);
+                safe_drop(&mut panics, "SendStream", b);
             }
             CEv::PeerLimit(l) => match l {
                 Some(v) => t.peer_send(&wf::settings(&[(wf::setting::MAX_CONCURRENT_STREAMS, v)])),
@@ -313,9 +311,15 @@ impl Model for ClientConc {
         s
     }
     fn teardown(&self, mut t: T2, w: CWorld) -> Vec<String> {
-        let mut panics = vec![];
-        guarded(&mut panics, "drop handles", move || drop(w));
-        t.panics.extend(panics);
+        let mut panics = std::mem::take(&mut t.panics);
+        for r in w.reqs {
+            safe_drop(&mut panics, "ResponseFuture", r.rf);
+            safe_drop(&mut panics, "SendStream", r.ss);
+        }
+        for (sr, _, _) in w.clones {
+            safe_drop(&mut panics, "SendRequest", sr);
+        }
+        t.panics = panics;
         t.finish()
     }
     fn counters(&self, _t: &T2, w: &CWorld) -> Vec<(&'static str, u64)> {
@@ -474,11 +478,9 @@ impl Model for ServerConc {
                 let sid = w.opened[k];
                 if let Some(a) = t.accepted.iter_mut().find(|a| a.sid == sid) {
                     let (b, r, s) = (a.body.take(), a.respond.take(), a.send.take());
-                    guarded(&mut panics, "drop", move || {
-                        drop(b);
-                        drop(r);
-                        drop(s);
-                    });
+                    safe_drop(&mut panics, "RecvStream", b);
+                    safe_drop(&mut panics, "SendResponse", r);
+                    safe_drop(&mut panics, "SendStream", s);
                 }
             }
             SEv::ReadToEnd(k) => {
